@@ -163,6 +163,8 @@ type c01World struct {
 	total  [2]int64
 	failed bool
 	limHit bool
+	// modelStrict is fixed at the start of the case (the driver is told once)
+	modelStrict bool
 }
 
 func (w *c01World) ign(pv *c01PV) bool { return w.gate && pv.del }
@@ -265,7 +267,7 @@ func (o *c01Obs) ids() []int {
 	return out
 }
 
-func (o *c01Obs) emit(h *vHarness) {
+func (o *c01Obs) emit(h *vHarness, strict bool) {
 	for k := 0; k < 2; k++ {
 		h.Obs("root %d %d %d %d %d", k, o.root[k][0], o.root[k][1], o.root[k][2], o.root[k][3])
 	}
@@ -284,6 +286,10 @@ func (o *c01Obs) emit(h *vHarness) {
 		for k := 0; k < 2; k++ {
 			h.Obs("d %d %d %s", k, q.name, vInts(q.d[k][:]))
 		}
+	}
+	if strict {
+		// the model state must satisfy the local equations of Props/C01.lean on every informer-consistent history
+		h.Obs("inv 1")
 	}
 	h.Obs("end")
 }
@@ -505,7 +511,7 @@ func (w *c01World) after(panicked bool) {
 		return
 	}
 	o := c01Observe(w.gqm)
-	o.emit(w.h)
+	o.emit(w.h, w.modelStrict)
 	w.oracle(o)
 }
 
@@ -909,6 +915,8 @@ func TestVerifC01(t *testing.T) {
 		}
 		w := &c01World{h: h, r: r, specs: map[int]*c01Spec{}, pods: map[int]*c01Pod{}, nextQ: 2, nextP: 1}
 		w.strict = !r.Chance(1, 8)
+		w.modelStrict = w.strict
+		h.Op("mode %d", vB(w.strict))
 		w.gate = r.Chance(1, 3)
 		restore := utilfeature.SetFeatureGateDuringTest(t, k8sfeature.DefaultFeatureGate, features.ElasticQuotaImmediateIgnoreTerminatingPod, w.gate)
 		w.gqm = NewGroupQuotaManager("tree1", false, nil, nil)
